@@ -227,6 +227,9 @@ enum Kind {
     /// MemoryCache with max_entries = 2 (LRU/LFU/FIFO/Random by value of the second field): eviction is legitimate
     MemoryEvicting(u8),
     Dynamic,
+    /// MultiLayerCacheImpl (two memory layers, OnHit promotion, L2 pre-seeded): judged weakly
+    /// (returns, no error, no torn/foreign value, returned values were written for that key)
+    MultiLayer,
     DiskFlat,
     DiskSubdirs,
     ProtocolMemory,
@@ -242,6 +245,7 @@ impl Kind {
             Kind::MemoryEvicting(2) => "MemoryCache(evicting,fifo)",
             Kind::MemoryEvicting(_) => "MemoryCache(evicting,random)",
             Kind::Dynamic => "DynamicContainer",
+            Kind::MultiLayer => "MultiLayerCacheImpl",
             Kind::DiskFlat => "DiskCache",
             Kind::DiskSubdirs => "DiskCache(subdirs)",
             Kind::ProtocolMemory => "ProtocolCache(memory)",
@@ -254,6 +258,7 @@ impl Kind {
             Kind::Memory => "MemoryCache",
             Kind::MemoryEvicting(_) => "MemoryCache(evicting)",
             Kind::Dynamic => "DynamicContainer",
+            Kind::MultiLayer => "MultiLayerCacheImpl",
             Kind::DiskFlat | Kind::DiskSubdirs => "DiskCache",
             Kind::ProtocolMemory => "ProtocolCache(memory)",
             Kind::ProtocolDisk => "ProtocolCache(disk)",
@@ -267,6 +272,7 @@ impl Kind {
             Kind::MemoryEvicting(2),
             Kind::MemoryEvicting(3),
             Kind::Dynamic,
+            Kind::MultiLayer,
             Kind::DiskFlat,
             Kind::DiskSubdirs,
             Kind::ProtocolMemory,
@@ -468,6 +474,8 @@ struct Built {
     _dir: Option<tempfile::TempDir>,
     /// true when ops must be driven without a surrounding tokio runtime
     sync_only: bool,
+    /// runtime that owns background tasks spawned by the subject's constructor
+    _rt: Option<tokio::runtime::Runtime>,
 }
 
 fn build(kind: Kind) -> Result<Built, String> {
@@ -475,7 +483,7 @@ fn build(kind: Kind) -> Result<Built, String> {
         Kind::Memory => {
             let cfg = MemoryCacheConfig::new().with_max_entries(10_000).with_max_memory(1 << 30);
             let c: MemoryCache<SKey> = MemoryCache::new(cfg).map_err(|e| e.to_string())?;
-            Ok(Built { subject: Arc::new(AsyncSubject { cache: Arc::new(c), reports_bytes: true }), _dir: None, sync_only: false })
+            Ok(Built { subject: Arc::new(AsyncSubject { cache: Arc::new(c), reports_bytes: true }), _dir: None, sync_only: false, _rt: None })
         }
         Kind::MemoryEvicting(p) => {
             use cascette_cache::traits::EvictionPolicy;
@@ -487,7 +495,7 @@ fn build(kind: Kind) -> Result<Built, String> {
             };
             let cfg = MemoryCacheConfig::new().with_max_entries(2).with_max_memory(1 << 30).with_eviction_policy(policy);
             let c: MemoryCache<SKey> = MemoryCache::new(cfg).map_err(|e| e.to_string())?;
-            Ok(Built { subject: Arc::new(AsyncSubject { cache: Arc::new(c), reports_bytes: true }), _dir: None, sync_only: false })
+            Ok(Built { subject: Arc::new(AsyncSubject { cache: Arc::new(c), reports_bytes: true }), _dir: None, sync_only: false, _rt: None })
         }
         Kind::Dynamic => {
             let dir = tempfile::tempdir().map_err(|e| e.to_string())?;
@@ -498,7 +506,24 @@ fn build(kind: Kind) -> Result<Built, String> {
             rt.block_on(c.open()).map_err(|e| e.to_string())?;
             let payloads = [dyn_payload(0), dyn_payload(1), dyn_payload(2)];
             let keys = [dyn_key(&payloads[0]), dyn_key(&payloads[1]), dyn_key(&payloads[2])];
-            Ok(Built { subject: Arc::new(DynSubject { c, payloads, keys }), _dir: Some(dir), sync_only: false })
+            Ok(Built { subject: Arc::new(DynSubject { c, payloads, keys }), _dir: Some(dir), sync_only: false, _rt: None })
+        }
+        Kind::MultiLayer => {
+            use cascette_cache::config::MultiLayerCacheConfig;
+            use cascette_cache::traits::MultiLayerCache;
+            let rt = tokio::runtime::Builder::new_multi_thread().worker_threads(1).enable_all().build().map_err(|e| e.to_string())?;
+            let cfg = MultiLayerCacheConfig::new()
+                .add_memory_layer(MemoryCacheConfig::new().with_max_entries(10_000).with_max_memory(1 << 30))
+                .add_memory_layer(MemoryCacheConfig::new().with_max_entries(10_000).with_max_memory(1 << 30));
+            let c: cascette_cache::MultiLayerCacheImpl<SKey> = {
+                let _g = rt.enter();
+                cascette_cache::MultiLayerCacheImpl::new(cfg).map_err(|e| e.to_string())?
+            };
+            // pre-seed the slower layer so that gets are served by it (second hits exercise the promotion tracker)
+            for k in 0..2u8 {
+                rt.block_on(c.put_to_layer(SKey(key_name(k)), Bytes::from(value_bytes(9000 + u32::from(k))), 1)).map_err(|e| e.to_string())?;
+            }
+            Ok(Built { subject: Arc::new(AsyncSubject { cache: Arc::new(c), reports_bytes: false }), _dir: None, sync_only: false, _rt: Some(rt) })
         }
         Kind::DiskFlat | Kind::DiskSubdirs => {
             let dir = tempfile::tempdir().map_err(|e| e.to_string())?;
@@ -506,7 +531,7 @@ fn build(kind: Kind) -> Result<Built, String> {
                 .with_max_files(100_000)
                 .with_subdirectories(kind == Kind::DiskSubdirs, if kind == Kind::DiskSubdirs { 2 } else { 0 });
             let c: DiskCache<SKey> = DiskCache::new(cfg).map_err(|e| e.to_string())?;
-            Ok(Built { subject: Arc::new(AsyncSubject { cache: Arc::new(c), reports_bytes: true }), _dir: Some(dir), sync_only: false })
+            Ok(Built { subject: Arc::new(AsyncSubject { cache: Arc::new(c), reports_bytes: true }), _dir: Some(dir), sync_only: false, _rt: None })
         }
         Kind::ProtocolMemory | Kind::ProtocolDisk => {
             let dir = if kind == Kind::ProtocolDisk { Some(tempfile::tempdir().map_err(|e| e.to_string())?) } else { None };
@@ -517,7 +542,7 @@ fn build(kind: Kind) -> Result<Built, String> {
                 ..Default::default()
             };
             let c = cascette_protocol::cache::ProtocolCache::new(&cfg).map_err(|e| e.to_string())?;
-            Ok(Built { subject: Arc::new(ProtoSubject { cache: c }), _dir: dir, sync_only: true })
+            Ok(Built { subject: Arc::new(ProtoSubject { cache: c }), _dir: dir, sync_only: true, _rt: None })
         }
     }
 }
@@ -644,9 +669,38 @@ fn drive<T>(sync_only: bool, fut: impl std::future::Future<Output = T>) -> T {
     }
 }
 
+#[derive(Clone)]
 enum Mode {
     Baton { rng: Rng, script: Option<Vec<u8>>, switch_pct: u64 },
     Stress { seed: u64, max_spin_ns: u64 },
+}
+
+/// `execute` under a wall-clock watchdog for subjects that may dead-lock (a hung thread cannot
+/// be killed: it is leaked). A firing watchdog is re-tried twice by the caller before it counts.
+fn execute_guarded(w: &Workload, mode: Mode) -> Result<Execution, String> {
+    if w.kind != Kind::MultiLayer {
+        return execute(w, mode);
+    }
+    let w2 = w.clone();
+    match vh::monitor::watchdog::run_with_timeout(Duration::from_secs(15), move || execute(&w2, mode)) {
+        vh::monitor::watchdog::Outcome::Done(r) => r,
+        vh::monitor::watchdog::Outcome::Panicked(m) => Err(format!("task panicked: {m}")),
+        vh::monitor::watchdog::Outcome::TimedOut => Err("hang: execution did not finish within 15 s".to_string()),
+    }
+}
+
+/// Called when an execution hung: re-run it twice; only a hang that reproduces is a violation.
+fn handle_hang(ctx: &Ctx, w: &Workload, mode: &Mode) {
+    let again = (0..2).filter(|_| matches!(execute_guarded(w, mode.clone()), Err(e) if e.starts_with("hang"))).count();
+    if again == 2 {
+        ctx.violation(
+            &format!("C11|{}|never-returns|concurrent-access", w.kind.family()),
+            "concurrent operations on the subject did not return within 15 s in three consecutive executions of the same workload",
+            json!({"workload": w.to_json()}),
+        );
+    } else {
+        ctx.obs("hang_not_reproduced", 1);
+    }
 }
 
 fn execute(w: &Workload, mode: Mode) -> Result<Execution, String> {
@@ -768,6 +822,20 @@ fn judge(w: &Workload, ex: &Execution) -> (Vec<(String, String)>, bool) {
             out.push((format!("C11|{fam}|torn-or-foreign-value"), "get returned bytes that no put wrote".to_string()));
         }
     }
+    if w.kind == Kind::MultiLayer {
+        // layered cache: several stores behind one key, judged weakly here (C12 judges its coherence):
+        // a returned value must have been written for that key by some put (or be the pre-seeded L2 value)
+        for r in &ex.history {
+            if let (OpSpec::Get(k), Res::Value(Some(id))) = (&r.done.spec, &r.done.res) {
+                let written = *id == 9000 + u32::from(*k)
+                    || ex.history.iter().any(|p| matches!(p.done.spec, OpSpec::Put(pk, pid) | OpSpec::PutTtl0(pk, pid) if pk == *k && pid == *id));
+                if !written && *id != TORN {
+                    out.push((format!("C11|{fam}|get-returns-value-never-written-for-this-key"), "get returned a well-formed value that no put wrote for this key".to_string()));
+                }
+            }
+        }
+        return (out, inconclusive);
+    }
     // 3. linearizability
     let events: Vec<Event<Done>> = ex.history.iter().map(|r| Event { call: r.call, ret: r.ret, op: r.done.clone() }).collect();
     let had_expiring: bool = ex.history.iter().any(|r| matches!(r.done.spec, OpSpec::PutTtl0(..)));
@@ -876,15 +944,19 @@ fn main() {
                         13 => Kind::DiskSubdirs,
                         14 | 15 => Kind::ProtocolMemory,
                         16 => Kind::ProtocolDisk,
+                        17 => Kind::MultiLayer,
                         _ => Kind::Dynamic,
                     };
                     let w = gen_workload(&mut rng, kind, max_ops);
                     let sched_rng = Rng::derive(ctx.seed, mix64(t, i) ^ 0xba70);
                     let switch_pct = *rng.pick(&[30u64, 50, 70, 90]);
-                    let ex = match execute(&w, Mode::Baton { rng: sched_rng, script: None, switch_pct }) {
+                    let mode = Mode::Baton { rng: sched_rng, script: None, switch_pct };
+                    let ex = match execute_guarded(&w, mode.clone()) {
                         Ok(e) => e,
                         Err(e) => {
-                            if e.contains("panicked") {
+                            if e.starts_with("hang") {
+                                handle_hang(ctx, &w, &mode);
+                            } else if e.contains("panicked") {
                                 ctx.violation(&format!("C11|{}|panic-in-operation", w.kind.family()), &e, json!({"workload": w.to_json()}));
                             } else {
                                 ctx.inconclusive(&format!("could not build subject: {e}"));
@@ -967,14 +1039,18 @@ fn main() {
                         8..=10 => Kind::MemoryEvicting(rng.below(4) as u8),
                         11..=14 => Kind::DiskFlat,
                         15 => Kind::DiskSubdirs,
-                        16 | 17 => Kind::ProtocolMemory,
+                        16 => Kind::ProtocolMemory,
+                        17 => Kind::MultiLayer,
                         _ => Kind::Dynamic,
                     };
                     let w = gen_workload(&mut rng, kind, max_ops.max(4));
-                    let ex = match execute(&w, Mode::Stress { seed: mix64(ctx.seed, mix64(t, i)), max_spin_ns: 50_000 }) {
+                    let mode = Mode::Stress { seed: mix64(ctx.seed, mix64(t, i)), max_spin_ns: 50_000 };
+                    let ex = match execute_guarded(&w, mode.clone()) {
                         Ok(e) => e,
                         Err(e) => {
-                            if e.contains("panicked") {
+                            if e.starts_with("hang") {
+                                handle_hang(ctx, &w, &mode);
+                            } else if e.contains("panicked") {
                                 ctx.violation(&format!("C11|{}|panic-in-operation", w.kind.family()), &e, json!({"workload": w.to_json()}));
                             }
                             continue;
